@@ -33,7 +33,7 @@ class C06(Prop):
     rule = ("one seed = one scenario (surface, producer length 0..5, per-item delays aligned to the ping interval, optional "
             "producer exception, slow cleanup, send/consumer latencies, server flavour, iterable kind, pre-emption rate) run "
             "fault-free and then once per disconnect/close point: after every emission of the fault-free run and at seeded "
-            "instants between items; evaluations = executions; non-trivial = a fault fired (disconnect, early close, "
+            "instants between items, and (ASGI) once per send() call with that call raising; evaluations = executions; non-trivial = a fault fired (disconnect, early close, "
             "back-pressure, raising send, pre-emption) ; distinct = distinct SHA-1 of the scheduling-event sequence (which "
             "thread/task ran, queue put/get, send/recv with virtual time)")
     assumptions = ("time bounds are in virtual time with explicit slack (2-3 x max send latency); the primary signal is 'never returns'",
@@ -43,7 +43,7 @@ class C06(Prop):
                            "baize.concurrency.ThreadPoolExecutor.submit", "asyncio.Queue/wait_for/tasks/async generators (CPython 3.12)", "user generators"],
                   "stub": ["event-loop selector/clock", "ASGI server", "WSGI server", "queue.Queue blocking", "pool executor -> simulated thread",
                            "Future.result/exception waiting", "time.sleep/time"]}
-    hard_probes = ("disconnect", "server_close_early", "wsgi_sse_close_while_relay_alive", "asgi_sse_ping_sent", "send_backpressure")
+    hard_probes = ("disconnect", "server_close_early", "wsgi_sse_close_while_relay_alive", "asgi_sse_ping_sent", "send_backpressure", "send_raises", "pool_saturated")
     quick_runs = 25000
     thorough_runs = 400000
     quick_wall = 50.0
@@ -84,6 +84,8 @@ class C06(Prop):
             t_end = ctx0.notes.get("t_end", 0.0)
             for f in plan["time_fracs"]:
                 vs.append(("time", round(f * t_end, 3)))
+            # the transport fails: the j-th send() raises (the producer must still be released)
+            vs += [("sendraise", j) for j in range(1, min(n_em, 10) + 1)]
         return vs
 
     def nontrivial(self, plan, ctx, variant):
@@ -184,6 +186,8 @@ class C06(Prop):
                         kw["disconnect_time"] = 0.0
                     else:
                         kw["disconnect_after_sends"] = variant[1]
+                elif variant[0] == "sendraise":
+                    kw["send_raise_at"] = variant[1]
                 else:
                     kw["disconnect_time"] = variant[1]
             peer = AsgiHttpPeer(loop, ctx, ctx.sched, req, send_lats=lats, raise_after_disconnect=plan["raising"], surface=surf, **kw)
@@ -232,12 +236,16 @@ class C06(Prop):
         if exc is not None:
             if exc is boom:
                 pass
-            elif isinstance(exc, (ClientGone, InjectedSendError)) and plan["raising"] and t_disc is not None:
+            elif isinstance(exc, ClientGone) and plan["raising"] and t_disc is not None:
+                pass
+            elif isinstance(exc, InjectedSendError) and variant is not None and variant[0] == "sendraise":
                 pass
             else:
                 ctx.violate("C06|%s|exception|foreign-exception|%s" % (surf, type(exc).__name__), repr(exc))
-        elif boom_at is not None and t_disc is None:
+        elif boom_at is not None and t_disc is None and not (variant is not None and variant[0] == "sendraise"):
             ctx.violate("C06|%s|exception|producer-exception-swallowed" % surf, "producer raised at step %d, call returned normally" % boom_at)
+        if variant is not None and variant[0] == "sendraise" and exc is None and snap["sends"] + 1 >= variant[1] and ctx.faults.get("send_raises"):
+            ctx.violate("C06|%s|exception|send-error-swallowed" % surf, "send() call %d raised, the response call returned normally" % variant[1])
         # 1. termination bound (virtual time)
         if t_disc is not None:
             # the application can react only once receive() has returned the disconnect to it
@@ -263,7 +271,7 @@ class C06(Prop):
             ctx.violate("C06|%s|release|loop-error|%s" % (surf, loop.errors[0][0][:40]), repr(loop.errors[:3]))
         # 3. delivery
         self._check_delivery(plan, ctx, surf, snap["body"], complete_expected=(t_disc is None and exc is None))
-        if t_disc is None and exc is None and not snap["complete"]:
+        if t_disc is None and exc is None and not snap["complete"] and not ctx.faults.get("send_raises"):
             ctx.violate("C06|%s|termination|returned-without-final-body" % surf, "")
 
     # ======================= WSGI SSE (threads) =======================
